@@ -92,6 +92,32 @@ Definition evalUQ := eval (qone Rops) (tr_qqmul Rops) (tr_conj Rops).
 Lemma SE3_I44 : SE3 (I44 Rops).
 Proof. unfold SE3. lin_simpl. split; [ unfold SO3; repeat split; ring | reflexivity ]. Qed.
 
+(* negative exponents: the code computes X ** n (n < 0) as X.inv() ** (-n) (fix fbf47d0) -- exactly pow_Z of the model:
+   the positive power of the traced closed-form inverse.  Traced through the classes for n = -1, -2, -3 (and -2 in 2-D). *)
+Lemma C01_negpow_is_inv_then_pow : forall (X : M33 R) (Y : M44 R) (P : M22 R) (E : M33 R),
+  (tr_SO3_powm1 Rops X = pow_Z (I33 Rops) (tr_SO3_mul Rops) (tr_SO3_inv Rops) X (-1) /\
+   tr_SO3_powm2 Rops X = pow_Z (I33 Rops) (tr_SO3_mul Rops) (tr_SO3_inv Rops) X (-2) /\
+   tr_SO3_powm3 Rops X = pow_Z (I33 Rops) (tr_SO3_mul Rops) (tr_SO3_inv Rops) X (-3)) /\
+  (tr_SE3_powm1 Rops Y = pow_Z (I44 Rops) (tr_SE3_mul Rops) (tr_SE3_inv Rops) Y (-1) /\
+   tr_SE3_powm2 Rops Y = pow_Z (I44 Rops) (tr_SE3_mul Rops) (tr_SE3_inv Rops) Y (-2) /\
+   tr_SE3_powm3 Rops Y = pow_Z (I44 Rops) (tr_SE3_mul Rops) (tr_SE3_inv Rops) Y (-3)) /\
+  tr_SO2_powm2 Rops P = pow_Z (I22 Rops) (tr_SO2_mul Rops) (tr_SO2_inv Rops) P (-2) /\
+  tr_SE2_powm2 Rops E = pow_Z (I33 Rops) (tr_SE2_mul Rops) (tr_SE2_inv Rops) E (-2).
+Proof. intros. unfold pow_Z. simpl. repeat split; same_tr. Qed.
+(* hence every traced negative power of a member is a member *)
+Lemma C01_negpow_closed : forall (X : M33 R) (Y : M44 R), SO3 X -> SE3 Y ->
+  SO3 (tr_SO3_powm1 Rops X) /\ SO3 (tr_SO3_powm2 Rops X) /\ SO3 (tr_SO3_powm3 Rops X) /\
+  SE3 (tr_SE3_powm1 Rops Y) /\ SE3 (tr_SE3_powm2 Rops Y) /\ SE3 (tr_SE3_powm3 Rops Y).
+Proof.
+  intros X Y HX HY. destruct (C01_negpow_is_inv_then_pow X Y (I22 Rops) (I33 Rops)) as ((-> & -> & ->) & (-> & -> & ->) & _).
+  assert (S3 : forall n, SO3 (pow_Z (I33 Rops) (tr_SO3_mul Rops) (tr_SO3_inv Rops) X n)).
+  { intros n. apply (valid_pow_Z SO3); [ apply SO3_I | intros a b Ha Hb; apply (C01_SO3_closed a b Ha Hb) | intros a Ha; apply (C01_SO3_closed a a Ha Ha) | exact HX ]. }
+  assert (S4 : forall n, SE3 (pow_Z (I44 Rops) (tr_SE3_mul Rops) (tr_SE3_inv Rops) Y n)).
+  { intros n. apply (valid_pow_Z SE3); [ apply SE3_I44 | intros a b Ha Hb; apply (C01_SE3_closed a b Ha Hb) | intros a Ha; apply (C01_SE3_closed a a Ha Ha) | exact HY ]. }
+  repeat split; first [ apply S3 | apply S4 ].
+Qed.
+
+
 Theorem C01_closure_expr_SO3 : forall (e : expr) (env : nat -> M33 R), (forall i, SO3 (env i)) -> SO3 (evalSO3 env e).
 Proof.
   intros e env H. unfold evalSO3. apply closure_expr; try assumption.
